@@ -43,6 +43,8 @@ def dec(c):
             elif o == 114: ops.append("cells")
             elif o == 115: ops.append("drop_all")
             continue
+        if o == 23:
+            p += 1; ops.append("caps"); continue
         if 50 <= o <= 86 or o == 22:
             p += 1
             def take(n):
